@@ -1,4 +1,5 @@
 """Sidecar contracts on the real functions of /repo (no edit of /repo).  One module per anchored area."""
 MODULES = [
+    "c15_tables",
     "c16_bins",
 ]
